@@ -31,12 +31,24 @@ type Resp struct {
 	Stage  string `json:"stage"`
 }
 
+// Hdr is the header / body class of a request ("-" = header absent).
+type Hdr struct {
+	Accept   string `json:"accept"`
+	Ctype    string `json:"ctype"`
+	Override string `json:"override"`
+	Body     bool   `json:"body"`
+}
+
+// DefaultHdr is HttpGate!DefaultHdr (used for witnesses that do not say).
+var DefaultHdr = Hdr{Accept: "-", Ctype: "application/json", Override: "-", Body: true}
+
 // Case is one case printed by TLC (HttpGateMC EmitInv).
 type Case struct {
 	M      string   `json:"m"`
 	T      string   `json:"t"`
 	Sps    []string `json:"sps"`
 	W      bool     `json:"w"`
+	H      Hdr      `json:"h"`
 	Target string   `json:"target"`
 	Raw    []string `json:"raw,omitempty"`
 	Dec    []string `json:"dec,omitempty"`
@@ -49,25 +61,27 @@ type Line struct {
 	T      string   `json:"t"`
 	Sps    []string `json:"sps"`
 	W      bool     `json:"w"`
+	H      Hdr      `json:"h"`
 	Target string   `json:"target"`
 	Obs    []Obs    `json:"obs"`
 }
 
 func (c Case) key() string {
-	return fmt.Sprintf("%s|%s|%s|%v", c.T, strings.Join(c.Sps, ","), c.M, c.W)
+	return fmt.Sprintf("%s|%s|%s|%v|%s|%s|%s|%v", c.T, strings.Join(c.Sps, ","), c.M, c.W, c.H.Accept, c.H.Ctype, c.H.Override, c.H.Body)
 }
 
 // plan of one universe (one seeded choice of parameter values and tokens)
 type plan struct {
-	maxSpell int // length of spelling sequences
-	reps     int // how often each request is sent (each time to another server instance)
+	maxSpell int  // length of spelling sequences
+	reps     int  // how often each request is sent (each time to another server instance)
+	hdr      bool // cross the header classes with the documented spelling
 }
 
 func plansFor(thorough bool) []plan {
 	if thorough {
-		return []plan{{maxSpell: 3, reps: 3}, {maxSpell: 2, reps: 5}, {maxSpell: 2, reps: 5}}
+		return []plan{{maxSpell: 3, reps: 3, hdr: true}, {maxSpell: 2, reps: 5, hdr: true}, {maxSpell: 2, reps: 5, hdr: true}}
 	}
-	return []plan{{maxSpell: 1, reps: 3}, {maxSpell: 2, reps: 2}}
+	return []plan{{maxSpell: 1, reps: 3, hdr: true}, {maxSpell: 2, reps: 2}}
 }
 
 func mcModule() (string, []byte) {
@@ -92,9 +106,9 @@ type Gen struct {
 
 // Generate has TLC check the property layer on the code-shaped spec over the whole request
 // domain and print every case.
-func Generate(c *core.Ctx, u *Universe, maxSpell int) (*Gen, error) {
+func Generate(c *core.Ctx, u *Universe, maxSpell int, hdr bool) (*Gen, error) {
 	mod, body := mcModule()
-	cfg := ConstCfg(Methods, Spellings, maxSpell) +
+	cfg := ConstCfg(Methods, Spellings, maxSpell, hdr) +
 		"SPECIFICATION Spec\nINVARIANT GateInv\nINVARIANT LiveInv\nINVARIANT DetInv\nINVARIANT AgreeInv\nINVARIANT EmitInv\nCHECK_DEADLOCK FALSE\n"
 	res, err := tlc.Run(tlc.Opts{
 		Module: mod, CfgText: cfg, Workers: c.Workers, Timeout: 20 * time.Minute, HeapGB: 8,
@@ -165,7 +179,7 @@ type VResult struct {
 // ValidateTrace runs pass A + pass B on one trace.
 func ValidateTrace(u *Universe, maxSpell int, trace []byte) (*VResult, error) {
 	mod, body := trModule()
-	cfg := ConstCfg(Methods, Spellings, maxSpell) + "  TraceFile = \"trace.ndjson\"\nSPECIFICATION TSpec\nINVARIANT Done\nCHECK_DEADLOCK FALSE\n"
+	cfg := ConstCfg(Methods, Spellings, maxSpell, false) + "  TraceFile = \"trace.ndjson\"\nSPECIFICATION TSpec\nINVARIANT Done\nCHECK_DEADLOCK FALSE\n"
 	res, err := tlc.Run(tlc.Opts{
 		Module: mod, CfgText: cfg, Workers: 1, Timeout: 20 * time.Minute, HeapGB: 4,
 		Files: map[string][]byte{mod + ".tla": body, ConstModule + ".tla": u.TLA(), "trace.ndjson": trace},
@@ -247,9 +261,12 @@ func runCases(cases []Case, body string, reps, workers int) ([]Line, int, error)
 			n := 0
 			for i := w; i < len(cases); i += workers {
 				cs := cases[i]
-				ln := Line{M: cs.M, T: cs.T, Sps: cs.Sps, W: cs.W, Target: cs.Target, Obs: []Obs{}}
+				if cs.H.Ctype == "" {
+					cs.H = DefaultHdr
+				}
+				ln := Line{M: cs.M, T: cs.T, Sps: cs.Sps, W: cs.W, H: cs.H, Target: cs.Target, Obs: []Obs{}}
 				for r := 0; r < reps; r++ {
-					ob, err := gates[cs.W][r].Do(cs.M, cs.Target, body)
+					ob, err := gates[cs.W][r].Do(cs.M, cs.Target, body, cs.H)
 					if err != nil {
 						mu.Lock()
 						if firstErr == nil {
@@ -428,6 +445,9 @@ func matchKnown(known []core.Finding, f Finding) *core.Finding {
 		if x, ok := m["w"].(bool); ok && x != f.Line.W {
 			continue
 		}
+		if x, _ := m["accept"].(string); x != "" && x != f.Line.H.Accept {
+			continue
+		}
 		return &known[i]
 	}
 	return nil
@@ -470,7 +490,7 @@ func Check(c *core.Ctx) int {
 		notes = append(notes, u.Notes...)
 		c.Logf("universe %d: %d templates, %d operations in oapi.yaml, %d embedded; TLC over the request domain (spelling sequences <= %d)",
 			ui, len(u.Templates), len(u.DocOps), len(u.EmbOps), p.maxSpell)
-		g, err := Generate(c, u, p.maxSpell)
+		g, err := Generate(c, u, p.maxSpell, p.hdr)
 		if err != nil {
 			fmt.Println("INCONCLUSIVE:", err)
 			return core.ExitInconclusive
@@ -510,8 +530,8 @@ func Check(c *core.Ctx) int {
 			if reported < 5 {
 				path := c.WriteReplay(fmt.Sprintf("u%d-%d", ui, reported), ReplayFile{Prop: c.Prop, Seed: c.Seed, Reps: p.reps, MaxSpell: p.maxSpell, Universe: u, Finding: f})
 				ob, _ := json.Marshal(f.Line.Obs)
-				c.Violation(path, fmt.Sprintf("monitor %s failed: %s %s with write operations %s (template %s, spelling %v) observed %s",
-					f.Monitor, f.Line.M, f.Line.Target, onOff(f.Line.W), f.Line.T, f.Line.Sps, ob))
+				c.Violation(path, fmt.Sprintf("monitor %s failed: %s %s with write operations %s (template %s, spelling %v, Accept %q, Content-Type %q, X-HTTP-Method-Override %q, body %v) observed %s",
+					f.Monitor, f.Line.M, f.Line.Target, onOff(f.Line.W), f.Line.T, f.Line.Sps, f.Line.H.Accept, f.Line.H.Ctype, f.Line.H.Override, f.Line.H.Body, ob))
 				reported++
 			}
 		}
@@ -562,7 +582,7 @@ func writeEvidence(c *core.Ctx, plans []plan, outs []*Outcome, violations int, s
 			"tlc_distinct_states": o.Gen.Distinct, "tlc_states_generated": o.Gen.States, "tlc_wall_s": o.Gen.Wall,
 			"cases": len(o.Gen.Cases), "requests": o.Requests, "deciding_stage_histogram": o.Stages, "observed_effect_histogram": o.Effects,
 			"param_values": o.Gen.U.ParamVal, "templates": len(o.Gen.U.Templates), "replay_s": o.ReplayS, "validate_s": o.ValidateS,
-			"max_spelling_sequence": plans[i].maxSpell, "repetitions": plans[i].reps,
+			"max_spelling_sequence": plans[i].maxSpell, "repetitions": plans[i].reps, "header_classes_crossed": plans[i].hdr,
 		})
 	}
 	if len(samples) == 0 {
@@ -577,7 +597,8 @@ func writeEvidence(c *core.Ctx, plans []plan, outs []*Outcome, violations int, s
 	cov := map[string]any{
 		"states": states, "transitions": trans, "traces_validated_against_impl": traces,
 		"samples": samples, "evaluations": reqs, "distinct_nontrivial": nontriv, "exhaustive": true,
-		"rule": "TLC enumerates Methods x (paths of oapi.yaml and of the embedded document + unknown) x spelling sequences x {write on, off} and walks the " +
+		"rule": "TLC enumerates Methods x (paths of oapi.yaml and of the embedded document + unknown) x spelling sequences x {write on, off} with default headers, plus " +
+			"Methods x paths (documented spelling) x header classes (5 Accept x 4 Content-Type x X-HTTP-Method-Override absent/POST x body present/absent) x {write on, off}, and walks the " +
 			"pipeline stages of the code-shaped spec; every case is sent reps times (each repetition to another server instance) to the real router; " +
 			"evaluations = HTTP requests served; distinct_nontrivial = distinct (method, target, setting) whose request gets past the outer router to the API sub-router " +
 			"(validator / ConfigMiddleware / generated handlers); every case line is validated by HttpGateTrace (pass A monitors, pass B conformance)",
@@ -592,7 +613,7 @@ func writeEvidence(c *core.Ctx, plans []plan, outs []*Outcome, violations int, s
 			"path spellings are the classes named in specs/HttpGate.tla (sequences of at most max_spelling_sequence mutations), not all strings",
 			"effects are observed on the hooked trigger / shutdown channels, on a Postgres wire endpoint that records the statements and on the pong body; " +
 				"an operation without such an observer is recognised by an answer that no stage in front of the handlers gives",
-			"the request body is always a valid DecryptionTrigger; header, cookie and body variations are outside the property's quantifier",
+			"headers are covered by the classes named in specs/HttpGate.tla (Accept, Content-Type, X-HTTP-Method-Override, body present/absent, also on GET), crossed with the documented spelling only; a body that is sent is always a valid DecryptionTrigger; cookies and other headers are not varied",
 		},
 		WallS: time.Since(c.Start).Seconds(), Violations: violations,
 	})
@@ -614,7 +635,7 @@ func Replay(c *core.Ctx) int {
 		return core.ExitInconclusive
 	}
 	l := rf.Finding.Line
-	cs := Case{M: l.M, T: l.T, Sps: l.Sps, W: l.W, Target: l.Target}
+	cs := Case{M: l.M, T: l.T, Sps: l.Sps, W: l.W, H: l.H, Target: l.Target}
 	if rf.Reps < 1 {
 		rf.Reps = 3
 	}
